@@ -122,12 +122,27 @@ def Agg.apply : Agg → List Cell → Val
   | .first, vs => .cell (vs.headD .none)
   | .last, vs => .cell (vs.getLastD .none)
 
-/-- a `y` value rendered as a column label: strings as they are, ints through `str` (line 336);
-other values would become non-string column keys: not modelled -/
+/-- The column key a `y` value becomes (lines 1328, 353: `dictable(res, list(y2id.keys()))`, whose `__init__` renders int keys
+through `str` and keeps every other key AS THE PYTHON OBJECT IT IS: a float, a datetime or `None` becomes a non-string key of
+the dict).  Column names of the model are strings, so a non-string key `c` is REPRESENTED by the tagged name
+`U+0000 ++ <wire atom of c>` (`"\x00F:6"` for `1.5`, `"\x00N"` for `None`; the harness encodes the implementation's column keys
+the same way); a string is its own name (assumption: string cells do not start with U+0000) and an int `n` is the name
+`str(n)` — so `1` and `'1'` get the SAME name.  bools (`True == 1` as dict keys) and NaN (a dict key by identity): not modelled. -/
+def keyName : Cell → Option String
+  | .str s => some s
+  | .int n => some (toString n)
+  | .none => some ("\x00" ++ Cell.none.render)
+  | .flt q => some ("\x00" ++ (Cell.flt q).render)
+  | .pinf => some ("\x00" ++ Cell.pinf.render)
+  | .ninf => some ("\x00" ++ Cell.ninf.render)
+  | .dt us => some ("\x00" ++ (Cell.dt us).render)
+  | .bool _ => Option.none
+  | .nan => Option.none
+
+/-- a `y` value rendered as a column label (`keyName` of a scalar; containers: not modelled) -/
 def yLabel : Val → Option String
-  | .cell (.str s) => some s
-  | .cell (.int n) => some (toString n)
-  | _ => none
+  | .cell c => keyName c
+  | _ => Option.none
 
 /-- the x part of an `(x.., y)` key tuple -/
 def xPart (nx : Nat) : Val → Val
@@ -143,7 +158,8 @@ def pivotCell (xyg : List Grp) (nx : Nat) (zs : List Cell) (agg : Agg) (yids : L
   | some j => agg.apply (((xyg.getD j (.cell .none, [])).2).map fun i => zs.getD i .none)
 
 /-- `d.xyz(x, y, z, agg)` (lines 1282-1307) for a table with at least one row, `x` column names,
-`y` and `z` one column name each.  `none`: outside the modelled domain. -/
+`y` and `z` one column name each.  `none`: outside the modelled domain (empty table, no x column, a y value that is
+a bool / NaN / container, an x column name repeated). -/
 def Table.pivot (t : Table) (x : List String) (y z : String) (agg : Agg) : Option (Res VTable) :=
   if t.nrows = 0 ∨ x.isEmpty then none else
   match t.keysOf ((x ++ [y]).map .col), t.col? z with
@@ -160,7 +176,10 @@ def Table.pivot (t : Table) (x : List String) (y z : String) (agg : Agg) : Optio
     match ys.mapM fun g => yLabel (tupleGet 0 g.1) with
     | Option.none => none
     | some labels =>
-      if ¬ (x ++ labels).Nodup then none else
+      -- two y values with one label (`1` beside `'1'`) or a label that is an `x` column: the repaired code raises
+      -- ValueError (fix g1; before it the later column silently replaced the earlier one / the x column)
+      if ¬ x.Nodup then none else
+      if ¬ (x ++ labels).Nodup then some (.error .value) else
       some (.ok (keyColsOf x xg ++
         (labels.zip ys).map fun (lab, yg) => (lab, xg.map fun g => pivotCell xyg nx zs agg g.2 yg.1)))
 
